@@ -309,6 +309,22 @@ macro_rules! jna {
         $crate::probes::stamp_tuple(__t)
     }};
 }
+/// Async lazy joiners (`lazy_branches(true)`): every argument is a zero-argument closure returning the branch future.
+#[macro_export]
+macro_rules! jnla {
+    ($($b:expr),* $(,)?) => {{
+        $crate::probes::joiner_enter(0usize $(+ { let _ = stringify!($b); 1usize })*);
+        let __t = $crate::futures_reexport::join!($( $crate::probes::call_lazy($b) ),*);
+        $crate::probes::stamp_tuple(__t)
+    }};
+}
+#[macro_export]
+macro_rules! jntla {
+    ($($b:expr),* $(,)?) => {{
+        $crate::probes::joiner_enter(0usize $(+ { let _ = stringify!($b); 1usize })*);
+        $crate::futures_reexport::try_join!($( $crate::probes::stamp_ok($crate::probes::call_lazy($b)) ),*)
+    }};
+}
 /// Async try joiner: like `try_join!`, output is `Result<tuple, Fail>`.
 #[macro_export]
 macro_rules! jnta {
